@@ -2,12 +2,23 @@
 """Print the prompt for a seeding sub-agent for property Cnn (only the property text + worktree path)."""
 import json, sys
 pid = sys.argv[1]
+round2 = len(sys.argv) > 2 and sys.argv[2] == "--round2"
 wt = "/tmp/seed-%s" % pid
 for l in open("/verif/properties.jsonl"):
     d = json.loads(l)
     if d["id"] == pid:
         break
-print(f"""You are testing how well a verification suite detects regressions in the breezy version control system (Python + some Rust, repository checked out for you as a scratch git worktree at {wt}; python is /venv/bin/python; run code against the worktree with `cd {wt} && PYTHONPATH={wt} /venv/bin/python ...`; the compiled extension modules are already symlinked into {wt}/breezy/). Work ONLY inside {wt} and /tmp/seed-{pid}-out (create it). Do not read or touch /verif or /repo. No network.
+prior = ""
+if round2:
+    import os
+    lines = []
+    for m in ("m1", "m2"):
+        mp = "/verif/seeded/%s-%s/agent_meta.json" % (pid, m)
+        if os.path.exists(mp):
+            lines.append("  - " + str(json.load(open(mp)).get("summary")))
+    prior = ("\n\nALREADY TRIED by other people (do NOT repeat these or close variants of them; pick different functions / different clauses of the property / different mechanisms):\n" + "\n".join(lines) +
+             "\nName your two changes m3 and m4 (files m3.diff, m3_demo.py, m3_meta.json, m4.diff, m4_demo.py, m4_meta.json) instead of m1/m2 (N = 3, 4).")
+text = f"""You are testing how well a verification suite detects regressions in the breezy version control system (Python + some Rust, repository checked out for you as a scratch git worktree at {wt}; python is /venv/bin/python; run code against the worktree with `cd {wt} && PYTHONPATH={wt} /venv/bin/python ...`; the compiled extension modules are already symlinked into {wt}/breezy/). Work ONLY inside {wt} and /tmp/seed-{pid}-out (create it). Do not read or touch /verif or /repo. No network.
 
 The property under test:
 
@@ -21,4 +32,5 @@ YOUR TASK: produce TWO different, independent, realistic source changes (bugs a 
   1. breezy still imports and the existing test modules that cover the touched code still pass exactly as before the change (run the relevant test files with `cd {wt} && PYTHONPATH={wt} /venv/bin/python -m pytest -q -p no:cacheprovider -x <test files> -n 8` BEFORE and AFTER and compare the sets of failing tests: some tests fail on the pristine tree already, that is fine - the set must simply not grow);
   2. the change BREAKS the property above, but only under something specific: a particular interleaving, a crash or fault at a particular point, a multi-step sequence of operations, an unusual input, or two cooperating sites that each look fine alone — NOT something ordinary use or a smoke test would expose at once;
   3. you have a demonstration: a standalone script /tmp/seed-{pid}-out/mN_demo.py (N = 1, 2) runnable as `PYTHONPATH=<tree> /venv/bin/python mN_demo.py` that exits 0 on the pristine tree and exits 1 (printing what went wrong) with the change applied. Scratch data under a fresh tempfile.mkdtemp(dir='/dev/shm') that the script removes. The demo must call breezy.initialize(setup_ui=False) style setup itself and set BRZ_HOME / BRZ_EMAIL env to scratch values.
-For each change write: /tmp/seed-{pid}-out/mN.diff (`git diff` of ONLY that change against the pristine worktree), mN_demo.py, and mN_meta.json with keys: property ("{pid}"), summary (one line), what_it_needs_to_manifest (the specific schedule / fault / sequence / input), tests_run (the test files you ran and the before/after failing-test counts), demo_pristine_exit, demo_mutant_exit. Revert the worktree to pristine (`git -C {wt} checkout -- .`) between the two changes and at the end. Verify each demo both ways yourself before finishing. Final message: a three-line summary per change.""")
+For each change write: /tmp/seed-{pid}-out/mN.diff (`git diff` of ONLY that change against the pristine worktree), mN_demo.py, and mN_meta.json with keys: property ("{pid}"), summary (one line), what_it_needs_to_manifest (the specific schedule / fault / sequence / input), tests_run (the test files you ran and the before/after failing-test counts), demo_pristine_exit, demo_mutant_exit. Revert the worktree to pristine (`git -C {wt} checkout -- .`) between the two changes and at the end. Verify each demo both ways yourself before finishing. Final message: a three-line summary per change."""
+print(text + prior)
